@@ -15,6 +15,7 @@ import (
 	"verifharness/props/c08"
 	"verifharness/props/c09"
 	"verifharness/props/c10"
+	"verifharness/props/c11"
 	"verifharness/props/c12"
 	"verifharness/props/c15"
 	"verifharness/props/c16"
@@ -35,6 +36,7 @@ var table = map[string]func(lib.Opts){
 	"C08": c08.Run,
 	"C09": c09.Run,
 	"C10": c10.Run,
+	"C11": c11.Run,
 	"C12": c12.Run,
 	"C15": c15.Run,
 	"C16": c16.Run,
